@@ -205,7 +205,9 @@ class ODMLReader:
             return self.doc
 
         if self.parser == 'YAML':
-            with open(file) as yaml_data:
+            # Binary mode: the YAML reader finds the encoding (UTF-8 or UTF-16) itself;
+            # text mode decodes with the locale encoding before the reader sees a byte.
+            with open(file, "rb") as yaml_data:
                 try:
                     yaml.SafeLoader.add_constructor("tag:yaml.org,2002:python/unicode",
                                                     unicode_loader_constructor)
